@@ -61,9 +61,15 @@ def run(cls_list, harness, wraps, extra_srcs, tag):
         c = cls()
         ctx = framework.Ctx(c.pid, tier, seed)
         try:
-            cases = c.cases(ctx)
+            try:
+                cases = c.cases(ctx)
+            except AttributeError:
+                # checks whose extra stages need a finished build (C18: TLS/LIST/CHURN pseudo-cases): scenario cases only
+                cases = corecheck.CoreCheck.cases(c, ctx)
         finally:
             ctx.cleanup()
+        # pseudo-cases of extra stages (CHURN / TLS / LIST / MSEL / STRESS) are not scenario lines
+        cases = [x for x in cases if x[:1] == "B"]
         n += len(cases)
         runner.run_cases_sharded([os.path.join(d, "h")], cases, timeout=1200, env=dict(os.environ, GCOV_PREFIX_STRIP="0"))
     res = gcov_summary(d, tag)
